@@ -33,6 +33,9 @@ def part_params(rng, alg, n, k=None, objs=OBJS5, cut=False):
     if alg == "dp":
         p["obj"] = rng.choice(objs)
         p["k"] = min(p["k"], 5)
+    if alg == "ilp":
+        p["obj"] = rng.choice(objs)
+        p["k"] = min(p["k"], 4)
     if alg == "cbldm":
         p = {"k": 2, "d": rng.choice([None, None, 1, 2, 3, n]), "cut": (rng.randint(1, 60) if cut else None)}
     return p
@@ -50,6 +53,8 @@ def random_part_cases(rng, algs, count, objs=OBJS5, cut=False, nmax=None):
             vals = gen.rand_vals(rng, n)
             if alg == "dp" and sum(vals) > 400:
                 vals = [v % 40 for v in vals]
+            if alg == "ilp":
+                vals = [v % 201 for v in vals]      # the solver is reliable for values <= 200 (property C02/C17)
             res.append({"alg": alg, "vals": vals, "p": part_params(rng, alg, n, objs=objs, cut=cut)})
     return res
 
